@@ -617,6 +617,9 @@ func (x *scanCtx) c04() {
 				x.viol("C04", "c04-over-bound", "", site, fmt.Sprintf("SetDesiredCapacity(%d) above min(max_nodes=%d, cloud max=%d)", c.Desired, gs.MaxEff, c.Known.Max), c)
 			}
 		case OpCreateFleet:
+			if c.FleetTotal > 20 {
+				x.s.stats.Probe("controller requested a fleet of more than 20")
+			}
 			if c.Known.Desired+c.FleetTotal > bound {
 				x.viol("C04", "c04-over-bound", "fleet", site, fmt.Sprintf("fleet of %d on desired %d above min(max_nodes=%d, cloud max=%d)", c.FleetTotal, c.Known.Desired, gs.MaxEff, c.Known.Max), c)
 			}
